@@ -58,3 +58,17 @@ Print Assumptions C08_cleanup_is_identity_on_real_tridiagonal.
 Print Assumptions C08_backtransform.
 Print Assumptions C08_reconstruct.
 Print Assumptions C08_one_by_one.
+
+From Coq Require Import Reals.
+From QV Require Import CRingR.
+From QVT Require Import EckartYoung EigUnique.
+Close Scope R_scope.
+(* "real eigenvalues equal to the spectrum of A": the spectrum is determined by the matrix -- two unitary diagonalisations A = V diag(lam) V^H =
+   V' diag(lam') V'^H with non-increasing real vectors have lam = lam' (also when eigenvalues repeat, vanish or are negative) *)
+Theorem C08_eigenvalues_are_determined_by_the_matrix n (V V' : qmat RR) (lam lam' : nat -> R) :
+  meq n n (qmm n (qherm V) V) qmid -> meq n n (qmm n V (qherm V)) qmid ->
+  meq n n (qmm n (qherm V') V') qmid -> meq n n (qmm n V' (qherm V')) qmid ->
+  (forall k l, k <= l -> l < n -> (lam l <= lam k)%R) -> (forall k l, k <= l -> l < n -> (lam' l <= lam' k)%R) ->
+  meq n n (@usv RR n V lam V) (@usv RR n V' lam' V') -> forall k, k < n -> lam k = lam' k.
+Proof. exact (eigenvalues_unique n V V' lam lam'). Qed.
+Print Assumptions C08_eigenvalues_are_determined_by_the_matrix.
